@@ -14,6 +14,10 @@ def run(ctx, args):
     ctx.emit("MC_Robust", "MC_Robust.cfg", beh, count=True, timeout=1500)       # leg M: with every partial operation guarded no class reaches crash / balloon
     if not q:
         ctx.model_check("MC_Robust", "MC_RobustPinned.cfg", expect_violation="NeverCrash", timeout=1500)   # the pinned guards (D12a/b) do
+    hist = os.path.join(ctx.scratch, "hostile_histories.ndjson")
+    ctx.emit("MC_RobustHist", "MC_RobustHist.cfg", hist, count=True, timeout=1500)     # leg M: no out-of-protocol history of <= 3 messages reaches a crash
+    ctx.model_check("MC_RobustHist", "MC_RobustHistPinned.cfg", expect_violation="NeverCrash")   # ... unless a stray response may store a pin without a backend
+    ctx.hist = hist
     ncls = len(set(open(beh).read().splitlines()))
     crashes = []
     allfails = []
@@ -32,7 +36,7 @@ def crash_loop(ctx, q, beh, recv, crashes, allfails):
         cur = os.path.join(ctx.scratch, "robust_current.json")
         if os.path.exists(cur):
             os.remove(cur)
-        rc, out = ctx.run_driver("TestVfRobust", env={"VERIF_IN": beh, "VERIF_TRACE": trace, "VERIF_SKIP": skipf, "VERIF_STRIDE": 8 if q else 1, "VERIF_RECV": recv,
+        rc, out = ctx.run_driver("TestVfRobust", env={"VERIF_IN": beh, "VERIF_TRACE": trace, "VERIF_SKIP": skipf, "VERIF_STRIDE": 8 if q else 1, "VERIF_RECV": recv, "VERIF_HIST": ctx.hist if recv else "", "VERIF_HIST_STRIDE": 100 if q else 5,
                                                       "VERIF_NMUT": (2500 if q else 60000) if recv else (500 if q else 10000)}, timeout=3000, allow_fail=True)
         if rc == 0:
             m = re.search(r"VF cases=(\d+) events=(\d+)", out)
@@ -60,6 +64,8 @@ def crash_loop(ctx, q, beh, recv, crashes, allfails):
             if c.get("cls", "").startswith("kind="):
                 pairs = [x for x in c["cls"].split(" ") if not x.endswith("=ok") and not x.endswith("=none") and not x.startswith(("kind=", "tr="))]
                 f.write(",".join(pairs or ["case=" + c["case"]]) + "\n")
+            elif c.get("cls", "").startswith("history"):
+                f.write("NOHIST\n")      # one crashing history is the verdict; the remaining histories are not run in this pass
             else:
                 f.write(c["case"].split("#")[0] + "\n")
     else:
